@@ -46,6 +46,17 @@ fn build_payload_x(fmt: u8, n: usize, ff: usize, ffw: Option<usize>) -> Vec<u8> 
             p.extend_from_slice(&[0u8; 6]);
         }
     }
+    // ffw = 1000 + k: the LAST word ends in k bytes of 0xFF (k = 1..=9, so its identifier byte is 0xFF): still a word -
+    // the 0xFF run measured from the end is longer than the padding, the cut must not fall inside the word
+    if let Some(x) = ffw.filter(|x| *x >= 1000) {
+        let k = (x - 1000).clamp(1, 9);
+        if n > 0 {
+            let start = (n - 1) * if fmt == 0 { 16 } else { 10 };
+            for b in &mut p[start + 10 - k..start + 10] {
+                *b = 0xFF;
+            }
+        }
+    }
     p.extend(std::iter::repeat(0xFF).take(ff));
     p
 }
@@ -375,6 +386,40 @@ pub fn run(tier: Tier) -> i32 {
             }
         }
         rep.cov("all_ff_word_cases", json!(xc.len() * 3));
+    }
+    // the last word ends in 1..=9 bytes of 0xFF (its identifier is 0xFF, an unknown word): x word counts x 0..=15 padding
+    // bytes x both formats. Where word tail + padding exceed 15 bytes the payload is rejected (model and tool agree on
+    // the run length); otherwise every word incl. the last is examined once
+    {
+        let mut xc: Vec<(u8, usize, usize, usize)> = Vec::new();
+        for fmt in [0u8, 2] {
+            for n in (1..=12usize).filter(|n| tier.is_thorough() || [1, 2, 5, 6, 8, 12].contains(n)) {
+                for k in 1..=9usize {
+                    for ff in 0..=15usize {
+                        xc.push((fmt, n, ff, k));
+                    }
+                }
+            }
+        }
+        let rx = par_map(&xc, |_, (f, n, ff, k)| {
+            let mut v = Vec::new();
+            if let Some(x) = check_preprocess_x(*f, *n, *ff, Some(1000 + *k)) {
+                v.push(("slice", x, "preprocess", ""));
+            }
+            for m in [Mode::SanityIts, Mode::AllIts] {
+                if let Some(x) = check_validator_x(*f, *n, *ff, m, Some(1000 + *k)) {
+                    v.push(("validator", x, "validator", m.name()));
+                }
+            }
+            v
+        });
+        for ((f, n, ff, k), r) in xc.iter().zip(rx.into_iter()) {
+            nontrivial += 1;
+            for (pre, (sig, d), kind, mode) in r {
+                rep.violation(Violation { signature: format!("{pre}:last-word-ends-in-ff:{sig}"), description: format!("{d} [format {f}, {n} words, the last one ending in {k} bytes of 0xFF, {ff} x 0xFF padding {mode}]"), replay: json!({"kind": kind, "fmt": f, "n": n, "ff": ff, "ffw": 1000 + k, "mode": mode}) });
+            }
+        }
+        rep.cov("last_word_ending_in_ff_cases", json!(xc.len() * 3));
     }
     // the separate row: word contents that imitate the other format's slot padding. A format-2 payload whose
     // second word starts with six zero bytes (bytes 10..15 of the payload) must still be cut in 10-byte words.
